@@ -96,6 +96,45 @@ func (c *Ctx) fieldByType(pkgShort, typ string, pred func(types.Type) bool) *typ
 	return found
 }
 
+// fieldByTypeUsedIn: like fieldByType, but when several fields have the type (a PR added a file name next to the
+// input, a list of sources next to the names) the one that the named function touches is taken — the anchor is the
+// field by its role, not by being the only one of its type.
+func (c *Ctx) fieldByTypeUsedIn(pkgShort, typ string, pred func(types.Type) bool, fnNames ...string) *types.Var {
+	if f := c.fieldByType(pkgShort, typ, pred); f != nil {
+		return f
+	}
+	s := c.structOf(pkgShort, typ)
+	if s == nil {
+		return nil
+	}
+	c.buildSSA()
+	cands := map[*types.Var]bool{}
+	for i := 0; i < s.NumFields(); i++ {
+		if pred(s.Field(i).Type()) {
+			cands[s.Field(i)] = true
+		}
+	}
+	used := map[*types.Var]bool{}
+	for _, n := range fnNames {
+		f := c.fn(n)
+		if f == nil {
+			continue
+		}
+		allInstrs(f, func(_ *ssa.BasicBlock, _ int, in ssa.Instruction) {
+			if fa, ok := in.(*ssa.FieldAddr); ok && cands[fieldOfAddr(fa)] {
+				used[fieldOfAddr(fa)] = true
+			}
+		})
+	}
+	if len(used) != 1 {
+		return nil
+	}
+	for k := range used {
+		return k
+	}
+	return nil
+}
+
 func (c *Ctx) constVal(pkgShort, name string) (constant.Value, bool) {
 	p := c.Pkgs[pkgShort]
 	if p == nil {
